@@ -37,7 +37,7 @@ func (o op) String() string {
 			sb.WriteString("; ")
 		}
 		switch o.kind {
-		case "cas-remove":
+		case "cas-remove", "cas-grow":
 			sb.WriteString(id)
 		default:
 			fmt.Fprintf(&sb, "%s %s@now%+d %v", id, o.states[i], o.dts[i], o.tokens[i])
@@ -86,6 +86,7 @@ func alphabet(ids []string) []op {
 			}
 		}
 		ops = append(ops, op{kind: "cas-remove", ids: []string{id}})
+		ops = append(ops, op{kind: "cas-grow", ids: []string{id}})
 	}
 	// one local CAS writing two entries whose tokens collide with each other (an operator tool, a migration)
 	for i := 0; i < len(ids); i++ {
@@ -229,6 +230,15 @@ func (m model) apply(o op, now int64) (model, int) {
 				incoming[id] = e
 			}
 		}
+	case "cas-grow":
+		for id, e := range s {
+			if e.state != ring.LEFT {
+				incoming[id] = e
+			}
+		}
+		if e, ok := incoming[o.ids[0]]; ok {
+			incoming[o.ids[0]] = ent{e.state, now + 1, norm(append(append([]uint32(nil), e.tokens...), M))}
+		}
 	}
 	for id, e := range incoming {
 		cur := s[id]
@@ -258,11 +268,25 @@ func applyReal(d *ring.Desc, o op, now int64) error {
 		}
 		_, err := d.Merge(in, false)
 		return err
-	case "cas-put", "cas-remove":
+	case "cas-put", "cas-remove", "cas-grow":
 		// what kv/memberlist hands to a CAS function: a clone without tombstones
 		cl := d.Clone().(*ring.Desc)
 		cl.RemoveTombstones(time.Time{})
-		if o.kind == "cas-put" {
+		if o.kind == "cas-grow" {
+			// a lifecycler adds a token to the ones it has: it appends to the slice it was given (which shares its storage
+			// with the replica's own entry) and writes the entry back with a newer timestamp
+			if in, ok := cl.Ingesters[o.ids[0]]; ok {
+				has := false
+				for _, t := range in.Tokens {
+					has = has || t == M
+				}
+				if !has {
+					in.Tokens = append(in.Tokens, M) // M is the largest token: the list stays sorted, nothing is moved
+				}
+				in.Timestamp = now + 1
+				cl.Ingesters[o.ids[0]] = in
+			}
+		} else if o.kind == "cas-put" {
 			for i, id := range o.ids {
 				cl.Ingesters[id] = ring.InstanceDesc{Id: id, Addr: id, Zone: zoneOf[id], State: o.states[i], Timestamp: now, Tokens: append([]uint32(nil), o.tokens[i]...), RegisteredTimestamp: 1}
 			}
@@ -418,7 +442,7 @@ func TestC05(t *testing.T) {
 		ids = []string{"a", "b", "c"}
 	}
 	ops := alphabet(ids)
-	rep.Bound = fmt.Sprintf("ids %v, token space {0,1,2^32-1}, %d operations (gossip merges of 1- and 2-entry descriptors in 5 states × 3 timestamps × 10 raw token lists incl. unsorted/duplicated; local-CAS put of one entry or of two entries colliding with each other / remove through Merge(…,true)), BFS depth %d from the empty ring, every state reached by replaying real merges on a fresh descriptor", ids, len(ops), depth)
+	rep.Bound = fmt.Sprintf("ids %v, token space {0,1,2^32-1}, %d operations (gossip merges of 1- and 2-entry descriptors in 5 states × 3 timestamps × 10 raw token lists incl. unsorted/duplicated; local-CAS put of one entry or of two entries colliding with each other / remove / grow the token list in place on the shared clone, through Merge(…,true)), BFS depth %d from the empty ring, every state reached by replaying real merges on a fresh descriptor", ids, len(ops), depth)
 	rep.Rule = "in every reachable state: tokens sorted/unique, LEFT holds none, no token in two non-LEFT entries, real merge result ≡ reference (per-entry LWW + collision rule: non-LEAVING beats LEAVING, else smaller id), and a real ring client fed the state answers Get/ShuffleShard/lookback/token-range/replication-set queries without ErrInconsistentTokensInfo or panic; a long-lived ring client fed a clone of the replica after every merge (as the gossip store feeds its watchers) answers like a client built from the final state alone; distinct_nontrivial = distinct reachable states in whose last step at least one token collision was resolved"
 	deadline := ev.Deadline(10 * time.Minute)
 	enum.Frozen(t, func() {
